@@ -140,6 +140,10 @@ func Run(c *core.Ctx) int {
 		c.Count(fmt.Sprintf("lines:%d", min(len(d.Lines), 9)), 1)
 		c.Count("rule:"+d.Rule, 1)
 		c.Count("cur:"+d.Cur, 1)
+		c.Count("regime:"+regimeName(d), 1)
+		for k, n := range calcproto.Families(d) {
+			c.Count("family:"+k, int64(n))
+		}
 		c.Eval(r.Req, len(d.Lines) > 0)
 		if i%997 == 0 {
 			c.Sample(map[string]any{"doc": d, "go": r.GoOut})
@@ -149,7 +153,14 @@ func Run(c *core.Ctx) int {
 		}
 	}
 	errorBound(c, docs, res)
-	return c.Finish("random billing documents (lines 0-8, thorough up to 40; breakdowns, line and document discounts/charges by percentage with and without base, fixed, rate x quantity; foreign-currency items with exchange rates or alternative prices; advances and due dates; tax-included prices; both rounding rules; currencies with 0/2/3 decimals; regimes ES, EL, PT, IT, FR); non-trivial = at least one line; distinct by encoded document", nil)
+	return c.Finish("random billing documents (lines 0-8, thorough up to 40; breakdowns, line and document discounts/charges by percentage with and without base, fixed, rate x quantity; foreign-currency items with exchange rates or alternative prices; advances and due dates; tax-included prices; both rounding rules; currencies with 0/2/3 decimals; regimes ES, EL, PT, IT, FR from the hand table and, read from the registry at run time, every other registered regime, suppliers under a regime's alternative code, and documents without a regime; rows sharing a rate key whose percentage the issuer supplies under different percentages; a combo repeated with a country override by an alternative code of the document's own regime, by another regime, by a country without one); non-trivial = at least one line; distinct by encoded document", nil)
+}
+
+func regimeName(d *calcproto.Doc) string {
+	if t := calcproto.DocTaxCountry(d.Country); t != "" {
+		return t
+	}
+	return "none"
 }
 
 func firstDiff(a, b string) string {
